@@ -5,7 +5,7 @@
 use crate::ctx::*;
 use chrono::format::{Item, Parsed, StrftimeItems};
 use chrono::{
-    DateTime, Datelike, Days, DurationRound, FixedOffset, Month, Months, NaiveDate, NaiveDateTime, NaiveTime, SecondsFormat,
+    DateTime, Datelike, Days, DurationRound, FixedOffset, Local, Month, Months, NaiveDate, NaiveDateTime, NaiveTime, SecondsFormat,
     SubsecRound, TimeDelta, TimeZone, Timelike, Utc, Weekday,
 };
 
@@ -108,7 +108,163 @@ fn offsets() -> Vec<FixedOffset> {
         .collect()
 }
 
+/// a minimal TZif version-1 file: no transitions, one local time type with the given UTC offset
+fn one_type_tzif(utoff: i32) -> Vec<u8> {
+    let mut b = b"TZif".to_vec();
+    b.push(0); // version 1
+    b.extend_from_slice(&[0u8; 15]);
+    for count in [0u32, 0, 0, 0, 1, 4] {
+        // isutcnt, isstdcnt, leapcnt, timecnt, typecnt, charcnt
+        b.extend_from_slice(&count.to_be_bytes());
+    }
+    b.extend_from_slice(&utoff.to_be_bytes());
+    b.extend_from_slice(&[0, 0]); // is_dst = 0, designation index 0
+    b.extend_from_slice(b"AAA\0");
+    b
+}
+
+/// every `Local` entry point that turns an instant or a wall-clock value into a `DateTime<Local>`, on the
+/// current thread (the caller has set `TZ` and spawned this thread: the zone is read per thread);
+/// each call under `catch_unwind`; the result is (call, arguments, outcome), `Err(())` = panic
+fn local_calls() -> Vec<(&'static str, String, Result<String, ()>)> {
+    use chrono::MappedLocalTime as M;
+    fn show(m: M<DateTime<Local>>) -> String {
+        match m {
+            M::None => "None".to_string(),
+            M::Single(d) => format!("Single({} {})", d.naive_utc(), d.offset().local_minus_utc()),
+            M::Ambiguous(a, b) => format!("Ambiguous({} {}, {} {})", a.naive_utc(), a.offset().local_minus_utc(), b.naive_utc(), b.offset().local_minus_utc()),
+        }
+    }
+    const NDT_MIN_TS: i64 = -8_334_601_228_800;
+    const NDT_MAX_TS: i64 = 8_210_266_876_799;
+    let secs = [0i64, -1, 1_719_835_200, 1_710_054_000, NDT_MIN_TS, NDT_MAX_TS, NDT_MIN_TS - 1, NDT_MAX_TS + 1, i64::MIN, i64::MAX];
+    let mut out: Vec<(&'static str, String, Result<String, ()>)> = vec![];
+    for s in secs {
+        for ns in [0u32, 999_999_999, 1_999_999_999, u32::MAX] {
+            out.push(("Local.timestamp_opt", format!("{s} {ns}"), guard(|| show(Local.timestamp_opt(s, ns)))));
+        }
+        out.push(("Local.timestamp_millis_opt", format!("{s}"), guard(|| show(Local.timestamp_millis_opt(s)))));
+        out.push(("Local.timestamp_millis_opt", format!("{s}*1000"), guard(|| show(Local.timestamp_millis_opt(s.saturating_mul(1000))))));
+        out.push(("Local.timestamp_micros", format!("{s}"), guard(|| show(Local.timestamp_micros(s)))));
+        out.push(("Local.timestamp_micros", format!("{s}*10^6"), guard(|| show(Local.timestamp_micros(s.saturating_mul(1_000_000))))));
+        out.push(("Local.timestamp_nanos", format!("{s}"), guard(|| {
+            let d = Local.timestamp_nanos(s);
+            format!("{} {}", d.naive_utc(), d.offset().local_minus_utc())
+        })));
+    }
+    let ndts = [
+        NaiveDateTime::MIN,
+        NaiveDateTime::MAX,
+        NaiveDate::from_ymd_opt(2024, 6, 1).unwrap().and_hms_opt(12, 0, 0).unwrap(),
+        NaiveDate::from_ymd_opt(2024, 3, 10).unwrap().and_hms_opt(2, 30, 0).unwrap(),
+        NaiveDate::from_ymd_opt(2024, 11, 3).unwrap().and_hms_opt(1, 30, 0).unwrap(),
+        NaiveDate::from_ymd_opt(1970, 1, 1).unwrap().and_hms_opt(0, 0, 0).unwrap(),
+        NaiveDate::from_ymd_opt(2016, 12, 31).unwrap().and_hms_milli_opt(23, 59, 59, 1_500).unwrap(),
+    ];
+    for n in ndts {
+        out.push(("Local.from_utc_datetime", format!("{n:?}"), guard(|| {
+            let d = Local.from_utc_datetime(&n);
+            format!("{} {}", d.naive_utc(), d.offset().local_minus_utc())
+        })));
+        out.push(("Local.from_local_datetime", format!("{n:?}"), guard(|| show(Local.from_local_datetime(&n)))));
+        out.push(("NaiveDateTime::and_local_timezone(Local)", format!("{n:?}"), guard(|| show(n.and_local_timezone(Local)))));
+    }
+    for (y, mo, d, h, mi, se) in [(2024, 6, 1, 12, 0, 0), (2024, 3, 10, 2, 30, 0), (262142, 12, 31, 23, 59, 59), (-262143, 1, 1, 0, 0, 0), (2024, 2, 30, 0, 0, 0), (2024, 1, 1, 24, 0, 0), (i32::MAX, 1, 1, 0, 0, 0)] {
+        out.push(("Local.with_ymd_and_hms", format!("{y} {mo} {d} {h} {mi} {se}"), guard(|| show(Local.with_ymd_and_hms(y, mo, d, h, mi, se)))));
+    }
+    out.push(("Local::now", String::new(), guard(|| {
+        let d = Local::now();
+        format!("offset {}", d.offset().local_minus_utc())
+    })));
+    out
+}
+
+/// F32 (repaired by 770977e): the `MappedLocalTime`-typed entry points of `Local` under zones taken from
+/// the environment — TZ strings and TZif files whose UTC offset is just below, at and beyond 24 hours.
+/// A panic in any call is a failure; a zone below the bound must be honoured (its offset is reported), a
+/// zone at or beyond it must be treated as unreadable zone data (the offset of the fallback is reported).
+fn local_sweep(c: &mut Ctx) {
+    let old = std::env::var("TZ").ok();
+    let mut files: Vec<std::path::PathBuf> = vec![];
+    // (TZ value, the fixed offset the zone prescribes if it is readable and fixed, must it be refused?)
+    let mut zones: Vec<(String, Option<i32>, bool)> = vec![
+        ("UTC0".into(), Some(0), false),
+        ("AAA-23:59:59".into(), Some(86399), false),
+        ("AAA23:59:59".into(), Some(-86399), false),
+        ("AAA-24".into(), None, true),
+        ("AAA24".into(), None, true),
+        ("XXX24".into(), None, true),
+        ("AAA-24:00".into(), None, true),
+        ("AAA24:00:00".into(), None, true),
+        ("AAA-24:00:01".into(), None, true),
+        ("AAA24:00:01".into(), None, true),
+        ("AAA-24:59:59".into(), None, true),
+        ("AAA24:59:59".into(), None, true),
+        ("XXX-24:30".into(), None, true),
+        ("AAA5BBB24,M3.2.0,M11.1.0".into(), None, true),
+        ("AAA5BBB-24,M3.2.0,M11.1.0".into(), None, true),
+        ("XXX0YYY-24,M3.2.0,M11.1.0".into(), None, true),
+        ("AAA5BBB-24:30,M3.2.0,M11.1.0".into(), None, true),
+        ("AAA-23BBB,M3.2.0,M11.1.0".into(), None, true), // defaulted DST offset = +24:00
+        ("AAA5BBB-23:59:59,M3.2.0,M11.1.0".into(), None, false),
+        ("EST5EDT,M3.2.0,M11.1.0".into(), None, false),
+    ];
+    for (k, (utoff, refuse)) in [(86399i32, false), (-86399, false), (86400, true), (-86400, true), (90000, true), (-90000, true), (i32::MAX, true), (i32::MIN + 1, true), (i32::MIN, true)].into_iter().enumerate() {
+        let path = std::env::temp_dir().join(format!("c15-{}-{k}.tzif", std::process::id()));
+        if std::fs::write(&path, one_type_tzif(utoff)).is_ok() {
+            zones.push((format!(":{}", path.display()), if refuse { None } else { Some(utoff) }, refuse));
+            files.push(path);
+        }
+    }
+    let probe = |tz: &str| -> Vec<(&'static str, String, Result<String, ()>)> {
+        std::env::set_var("TZ", tz);
+        std::thread::spawn(local_calls).join().unwrap_or_default()
+    };
+    // what an unreadable TZ value falls back to in this environment (C18: next source / UTC)
+    let fallback: Vec<Result<String, ()>> = probe("/nonexistent/zone/of/c15").into_iter().filter(|x| x.0 != "Local::now").map(|x| x.2).collect();
+    for (tz, fixed, refuse) in &zones {
+        let res = probe(tz);
+        if res.is_empty() {
+            c.fail("panic in fallible operation Local.* (worker thread died)", &format!("TZ={tz}"));
+            continue;
+        }
+        c.count(if *refuse { "local-sweep:zone at or beyond 24 h" } else { "local-sweep:zone below 24 h" });
+        for (k, (name, args, r)) in res.iter().enumerate() {
+            c.count(&format!("call:{name}"));
+            match r {
+                Err(()) => c.fail(&format!("panic in fallible operation {name} (zone from the environment)"), &format!("TZ={tz} args=({args})")),
+                Ok(shown) => {
+                    if *name == "Local::now" {
+                        continue;
+                    }
+                    if *refuse {
+                        // unreadable zone data: exactly the fallback's answer
+                        if fallback.get(k) != Some(&Ok(shown.clone())) {
+                            c.fail("a TZ value stating a UTC offset of 24 hours or more is not treated as unreadable zone data (F32)", &format!("TZ={tz} {name}({args}) -> {shown}, fallback -> {:?}", fallback.get(k)));
+                        }
+                    } else if let Some(off) = fixed {
+                        // a readable fixed zone: every value handed out carries its offset
+                        let bad = shown.split(|ch| ch == '(' || ch == ')' || ch == ',').filter(|p| p.contains(' ') || p.starts_with("offset"))
+                            .filter_map(|p| p.trim().rsplit(' ').next().and_then(|o| o.parse::<i32>().ok())).any(|o| o != *off);
+                        if bad {
+                            c.fail("Local does not report the offset of a readable fixed-offset zone below 24 h", &format!("TZ={tz} {name}({args}) -> {shown}, want offset {off}"));
+                        }
+                    }
+                }
+            }
+        }
+    }
+    match &old {
+        Some(v) => std::env::set_var("TZ", v),
+        None => std::env::remove_var("TZ"),
+    }
+    for p in files {
+        let _ = std::fs::remove_file(p);
+    }
+}
+
 pub fn run(c: &mut Ctx) {
+    local_sweep(c);
     let (i32v, u32v, i64v) = (i32s(), u32s(), i64s());
     let (ds, ts, dls, offs) = (dates(), times(), deltas(), offsets());
     let mut dts: Vec<NaiveDateTime> = vec![NaiveDateTime::MIN, NaiveDateTime::MAX];
